@@ -45,6 +45,33 @@ StatusReg ==
   1287 :> "servererrorbusy" @@
   1288 :> "servererrorjobcanceled" @@
   1289 :> "servererrormultipledocumentjobsnotsupported"
+(* later IANA registrations (RFC 3380, 3995, 3996, 3998, PWG 5100.x): not required to be known to the       *)
+(* library, but a symbol carrying one of these names must carry its number (C16: never the symbol of a       *)
+(* different code)                                                                                            *)
+StatusIana ==
+  3 :> "successfulokignoredsubscriptions" @@
+  4 :> "successfulokignorednotifications" @@
+  5 :> "successfuloktoomanyevents" @@
+  6 :> "successfulokbutcancelsubscription" @@
+  7 :> "successfulokeventscomplete" @@
+  1043 :> "clienterrorattributesnotsettable" @@
+  1044 :> "clienterrorignoredallsubscriptions" @@
+  1045 :> "clienterrortoomanysubscriptions" @@
+  1046 :> "clienterrorignoredallnotifications" @@
+  1047 :> "clienterrorprintsupportfilenotfound" @@
+  1048 :> "clienterrordocumentpassworderror" @@
+  1049 :> "clienterrordocumentpermissionerror" @@
+  1050 :> "clienterrordocumentsecurityerror" @@
+  1051 :> "clienterrordocumentunprintableerror" @@
+  1052 :> "clienterroraccountinfoneeded" @@
+  1053 :> "clienterroraccountclosed" @@
+  1054 :> "clienterroraccountlimitreached" @@
+  1055 :> "clienterroraccountauthorizationfailed" @@
+  1056 :> "clienterrornotfetchable" @@
+  1290 :> "servererrorprinterisdeactivated" @@
+  1291 :> "servererrortoomanyjobs" @@
+  1292 :> "servererrortoomanydocuments"
+StatusAll == StatusReg @@ StatusIana
 OpReg ==
   2 :> "printjob" @@
   3 :> "printuri" @@
@@ -253,6 +280,8 @@ Aliases(name) ==
     [] name = "notsettable" -> {"notsettable"}
     [] OTHER -> {}
 Means(reg, code, sym) == code \in DOMAIN reg /\ (sym = reg[code] \/ sym \in Aliases(reg[code]))
+(* the symbol is not the registered name of a DIFFERENT code of the table *)
+NotOthersName(reg, code, sym) == \A c2 \in DOMAIN reg : (c2 # code) => ~(sym = reg[c2] \/ sym \in Aliases(reg[c2]))
 
 VersionReg == 256 :> "v1_0" @@ 257 :> "v1_1" @@ 512 :> "v2_0" @@ 513 :> "v2_1" @@ 514 :> "v2_2"   \* major * 256 + minor
 RFC8011Success == {0, 1, 2}
